@@ -86,6 +86,56 @@ fn vp_u64(forms: &[Form]) -> Option<ValueParser> {
     Some(p.into())
 }
 
+/// `Arg::value_parser(<range literal>)`: the `From<Range*<i64>> for ValueParser` conversions (one
+/// range only; chained sets do not exist for this construction)
+fn vp_i64_literal(forms: &[Form]) -> Option<ValueParser> {
+    if forms.len() != 1 {
+        return None;
+    }
+    let c = |x: i128| -> Option<i64> { i64::try_from(x).ok() };
+    Some(match forms[0] {
+        Form::Full => ValueParser::from(..),
+        Form::From(a) => ValueParser::from(c(a)?..),
+        Form::To(b) => ValueParser::from(..c(b)?),
+        Form::ToIncl(b) => ValueParser::from(..=c(b)?),
+        Form::Range(a, b) => ValueParser::from(c(a)?..c(b)?),
+        Form::RangeIncl(a, b) => ValueParser::from(c(a)?..=c(b)?),
+    })
+}
+
+/// the public constructors `RangedI64ValueParser::<u8>::new()` / `RangedU64ValueParser::<u16>::new()`
+/// (bounds start out wider than the target type)
+fn vp_u8_new(forms: &[Form]) -> Option<ValueParser> {
+    let mut p = clap::builder::RangedI64ValueParser::<u8>::new();
+    for f in forms {
+        let c = |x: i128| -> Option<i64> { i64::try_from(x).ok() };
+        p = match *f {
+            Form::Full => p.range(..),
+            Form::From(a) => p.range(c(a)?..),
+            Form::To(b) => p.range(..c(b)?),
+            Form::ToIncl(b) => p.range(..=c(b)?),
+            Form::Range(a, b) => p.range(c(a)?..c(b)?),
+            Form::RangeIncl(a, b) => p.range(c(a)?..=c(b)?),
+        };
+    }
+    Some(p.into())
+}
+fn vp_u16_u64new(forms: &[Form]) -> Option<ValueParser> {
+    let mut p = clap::builder::RangedU64ValueParser::<u16>::new();
+    for f in forms {
+        let c = |x: i128| -> Option<u64> { u64::try_from(x).ok() };
+        p = match *f {
+            Form::Full => p.range(..),
+            Form::From(a) => p.range(c(a)?..),
+            Form::To(b) => p.range(..c(b)?),
+            Form::ToIncl(b) => p.range(..=c(b)?),
+            Form::Range(a, b) => p.range(c(a)?..c(b)?),
+            Form::RangeIncl(a, b) => p.range(c(a)?..=c(b)?),
+        };
+    }
+    Some(p.into())
+}
+
 struct Target {
     name: &'static str,
     min: i128,
@@ -111,6 +161,9 @@ fn targets() -> Vec<Target> {
         Target { name: "u16", min: 0, max: u16::MAX as i128, mk: vp_u16, get: getter!(u16), u64_backed: false },
         Target { name: "u32", min: 0, max: u32::MAX as i128, mk: vp_u32, get: getter!(u32), u64_backed: false },
         Target { name: "u64", min: 0, max: u64::MAX as i128, mk: vp_u64, get: getter!(u64), u64_backed: true },
+        Target { name: "i64-from-range-literal", min: i64::MIN as i128, max: i64::MAX as i128, mk: vp_i64_literal, get: getter!(i64), u64_backed: false },
+        Target { name: "u8-RangedI64ValueParser::new", min: 0, max: u8::MAX as i128, mk: vp_u8_new, get: getter!(u8), u64_backed: false },
+        Target { name: "u16-RangedU64ValueParser::new", min: 0, max: u16::MAX as i128, mk: vp_u16_u64new, get: getter!(u16), u64_backed: true },
     ]
 }
 
